@@ -203,3 +203,65 @@ def directory_creators(repo, fm_rel):
                 if last in ("mkdir", "makedirs") or d in ("os.mkdir", "os.makedirs"):
                     out.append((fi, c))
     return out
+
+
+_EXISTS_ONLY = {"FileExistsError"}
+
+
+def swallowing_handlers(call):
+    """Handlers of the try statements in whose *body* `call` stands that do not re-raise:
+    [(handler node, caught names or ['<everything>'])]."""
+    from .model import ancestors
+    out = []
+    child = call
+    for a in ancestors(call):
+        if isinstance(a, ast.Try) and any(child is st for st in a.body):
+            for h in a.handlers:
+                if any(isinstance(x, ast.Raise) for st in h.body for x in ast.walk(st)):
+                    continue
+                if h.type is None:
+                    names = ["<everything>"]
+                elif isinstance(h.type, ast.Tuple):
+                    names = [(dotted(e) or "?").split(".")[-1] for e in h.type.elts]
+                else:
+                    names = [(dotted(h.type) or "?").split(".")[-1]]
+                out.append((h, names))
+        if isinstance(a, (ast.FunctionDef, ast.AsyncFunctionDef)):
+            break
+        child = a
+    return out
+
+
+def tolerates_existing(call):
+    """the creation call stands under a handler that swallows 'already exists'"""
+    return any(set(n) & {"FileExistsError", "OSError", "Exception", "BaseException", "<everything>", "EnvironmentError", "IOError"}
+               for _, n in swallowing_handlers(call))
+
+
+def creation_failures_swallowed(repo, fm_rel):
+    """Directory creations of a file manager whose failure (other than 'already exists') is swallowed:
+    [(function, call, caught names)].  Also creations wrapped in contextlib.suppress(...) of more than FileExistsError."""
+    from .model import ancestors
+    m = repo.module(fm_rel)
+    out, seen = [], 0
+    for nm, fi in m.functions.items():
+        for c in ast.walk(fi.node):
+            if not isinstance(c, ast.Call):
+                continue
+            d = dotted(c.func) or ""
+            last = c.func.attr if isinstance(c.func, ast.Attribute) else d
+            if not (last in ("mkdir", "makedirs") or d in ("os.mkdir", "os.makedirs")):
+                continue
+            seen += 1
+            for h, names in swallowing_handlers(c):
+                if set(names) - _EXISTS_ONLY:
+                    out.append((fi, c, names))
+            for a in ancestors(c):
+                if isinstance(a, (ast.With, ast.AsyncWith)):
+                    for it in a.items:
+                        ce = it.context_expr
+                        if isinstance(ce, ast.Call) and (dotted(ce.func) or "").split(".")[-1] == "suppress":
+                            names = [(dotted(e) or "?").split(".")[-1] for e in ce.args]
+                            if set(names) - _EXISTS_ONLY:
+                                out.append((fi, c, names))
+    return out, seen
